@@ -184,6 +184,13 @@ package leveldb
 
 //@ lock DB.writeLockC
 //@ handoff DB.writeMergedC DB.writeLockC
+// Event counters of the write-merge protocol (C10) and call counters of the group's one-time actions.
+//@ event DB.writeMergeC
+//@ event DB.writeMergedC
+//@ event DB.writeAckC
+//@ count (*DB).writeJournal
+//@ count (*DB).addSeq
+//@ count (*DB).unlockWrite
 
 // Only non-nil errors are ever sent on the persistent-error channel (compactionError sends `err` only in its
 // haserr/hasperr states); assumed, listed in the evidence.
@@ -201,14 +208,31 @@ package leveldb
 //@ func (*DB).unlockWrite
 //@   props C09 C10
 //@   requires held(db.writeLockC) >= 1
+//@   requires [C10:merged-nonneg] merged >= 0
 //@   touches held(db.writeLockC)
+//@   loop 1
+//@     invariant [C10:acks-so-far] 0 <= i && i <= merged && sent(db.writeAckC) == old(sent(db.writeAckC)) + i
+//@     invariant [C10:nothing-else] sentv(db.writeMergedC, false) == old(sentv(db.writeMergedC, false)) && sentv(db.writeMergedC, true) == old(sentv(db.writeMergedC, true))
 //@   ensures [released-or-handed-over] held(db.writeLockC) == old(held(db.writeLockC)) - 1
+//@   ensures [C10:one-ack-per-merged-writer] sent(db.writeAckC) == old(sent(db.writeAckC)) + merged
+//@   ensures [C10:handoff-iff-overflow] sentv(db.writeMergedC, false) == old(sentv(db.writeMergedC, false)) + (overflow ? 1 : 0)
+//@   ensures [C10:no-merged-reply-here] sentv(db.writeMergedC, true) == old(sentv(db.writeMergedC, true))
 
 //@ func (*DB).writeLocked
 //@   props C09 C10
 //@   requires held(db.writeLockC) >= 1
 //@   touches held(db.writeLockC)
+//@   loop 1
+//@     invariant [C10:merge-accounting] merged >= 0 && !overflow && recvd(db.writeMergeC) == old(recvd(db.writeMergeC)) + merged
+//@     invariant [C10:replies-so-far] sentv(db.writeMergedC, true) == old(sentv(db.writeMergedC, true)) + merged && sentv(db.writeMergedC, false) == old(sentv(db.writeMergedC, false))
+//@     invariant [C10:no-acks-yet] sent(db.writeAckC) == old(sent(db.writeAckC))
+//@     invariant [C10:no-actions-yet] calls("(*DB).writeJournal") == old(calls("(*DB).writeJournal")) && calls("(*DB).addSeq") == old(calls("(*DB).addSeq")) && calls("(*DB).unlockWrite") == old(calls("(*DB).unlockWrite"))
 //@   ensures [released-on-every-path] held(db.writeLockC) == old(held(db.writeLockC)) - 1
+//@   ensures [C10:every-merged-writer-acked-once] sent(db.writeAckC) - old(sent(db.writeAckC)) == sentv(db.writeMergedC, true) - old(sentv(db.writeMergedC, true))
+//@   ensures [C10:every-request-answered-once] recvd(db.writeMergeC) - old(recvd(db.writeMergeC)) == (sentv(db.writeMergedC, true) - old(sentv(db.writeMergedC, true))) + (sentv(db.writeMergedC, false) - old(sentv(db.writeMergedC, false)))
+//@   ensures [C10:one-release-or-handoff] calls("(*DB).unlockWrite") == old(calls("(*DB).unlockWrite")) + 1
+//@   ensures [C10:one-journal-record-one-publication] result == nil ==> (calls("(*DB).writeJournal") == old(calls("(*DB).writeJournal")) + 1 && calls("(*DB).addSeq") == old(calls("(*DB).addSeq")) + 1)
+//@   ensures [C10:never-two-journal-records] calls("(*DB).writeJournal") <= old(calls("(*DB).writeJournal")) + 1 && calls("(*DB).addSeq") <= old(calls("(*DB).addSeq")) + 1
 
 //@ func (*Transaction).setDone
 //@   props C09 C11
@@ -241,6 +265,18 @@ package leveldb
 //@   requires !tr.closed ==> held(tr.db.writeLockC) >= 1
 //@   touches held(tr.db.writeLockC)
 //@   ensures held(tr.db.writeLockC) == old(held(tr.db.writeLockC)) - (old(tr.closed) ? 0 : 1)
+
+// A writer that asked to be merged waits for exactly one reply, and takes exactly one acknowledgement iff the
+// reply said "merged"; otherwise it has been handed the lock and continues as leader.
+//@ func (*DB).Write
+//@   props C10
+//@   ensures [C10:one-reply-per-request] recvd(db.writeMergedC) - old(recvd(db.writeMergedC)) == sent(db.writeMergeC) - old(sent(db.writeMergeC))
+//@   ensures [C10:ack-iff-merged] (recvd(db.writeAckC) - old(recvd(db.writeAckC))) == (recvdv(db.writeMergedC, true) - old(recvdv(db.writeMergedC, true)))
+
+//@ func (*DB).putRec
+//@   props C10
+//@   ensures [C10:one-reply-per-request] recvd(db.writeMergedC) - old(recvd(db.writeMergedC)) == sent(db.writeMergeC) - old(sent(db.writeMergeC))
+//@   ensures [C10:ack-iff-merged] (recvd(db.writeAckC) - old(recvd(db.writeAckC))) == (recvdv(db.writeMergedC, true) - old(recvdv(db.writeMergedC, true)))
 
 // Close takes the write lock for good (the closed DB owns it); SetReadOnly and the persistent-error state of
 // compactionError park it in db.compWriteLocking.
